@@ -53,7 +53,39 @@ def selList : List Sel → List Sel
   | x :: xs => sel x :: selList xs
 end
 
-def varDef (v : VarDef) : VarDef := { name := V.var v.name, type := v.type, default := v.default.map V.value }
+mutual
+theorem hasVar_value : ∀ v : Value, (V.value v).hasVar = v.hasVar
+  | .var x => rfl
+  | .list vs => by simp only [value, Value.hasVar, hasVarL_values vs]
+  | .obj fs => by simp only [value, Value.hasVar, hasVarF_objFields fs]
+  | .int s => rfl
+  | .float s => rfl
+  | .str s => rfl
+  | .bool b => rfl
+  | .null => rfl
+  | .enum s => rfl
+theorem hasVarL_values : ∀ vs : List Value, Value.hasVarL (V.values vs) = Value.hasVarL vs
+  | [] => rfl
+  | v :: vs => by simp only [values, Value.hasVarL, hasVar_value v, hasVarL_values vs]
+theorem hasVarF_objFields : ∀ fs : List ObjField, Value.hasVarF (V.objFields fs) = Value.hasVarF fs
+  | [] => rfl
+  | .mk n v :: fs => by simp only [objFields, objField, Value.hasVarF, hasVar_value v, hasVarF_objFields fs]
+end
+
+theorem dirs_const {ds : List Dir} (h : ds.all Dir.isConst = true) : (ds.map V.dir).all Dir.isConst = true := by
+  rw [List.all_map]
+  have : (Dir.isConst ∘ V.dir) = Dir.isConst := by
+    funext d
+    simp only [Function.comp, Dir.isConst, dir, List.all_map]
+    congr 1
+    funext a
+    show (!(V.value a.value).hasVar) = !a.value.hasVar
+    rw [hasVar_value]
+  rw [this]; exact h
+
+def varDef (v : VarDef) : VarDef :=
+  { name := V.var v.name, type := v.type, default := v.default.map V.value, dirs := v.dirs.map V.dir,
+    dirsConst := V.dirs_const v.dirsConst }
 
 def defn : Def → Def
   | .op k nm vars dirs id sels => .op k nm (vars.map V.varDef) (dirs.map V.dir) id (V.selList sels)
@@ -252,7 +284,11 @@ theorem enterRule_vr (V : Vr) (s : SchemaD) (fx : Fixes) (r : Rule) (hr : r.read
            simp only [Vr.node, Vr.value, enterRule, vr_objFields_names, checkScalar_obj s ti (V.objFields fs) fs]
          | _ => rfl)
   | selectionSet id sels => cases r <;> first | exact absurd hr (by decide) | rfl
-  | varDef v => cases r <;> first | exact absurd hr (by decide) | rfl
+  | varDef v =>
+    cases r <;> first
+      | exact absurd hr (by decide)
+      | rfl
+      | (simp only [Vr.node, enterRule, Vr.varDef, vr_dirs_names])
   | argument a => cases r <;> first | exact absurd hr (by decide) | rfl
   | _ => rfl
 
@@ -428,7 +464,7 @@ theorem visitVarDef_vr (V : Vr) (c : Cfg) (hc : c.VarBlind) (v : VarDef) (st : S
     visitVarDef c (V.varDef v) st = visitVarDef c v st := by
   simp only [visitVarDef]
   refine visitNode_vr V c hc (.varDef v) _ _ (fun st' => ?_) st
-  simp only [Vr.varDef]
+  simp only [Vr.varDef, visitDirectives_vr V c hc]
   cases v.default with
   | none => rfl
   | some dv => simp only [Option.map_some, visitValue_vr V c hc]
